@@ -39,6 +39,7 @@ RENDER_VERSION = '1'
 
 
 def result_type(kind):
+    kind = v1sum.base(kind)
     if kind == 'str_views':
         kind = 'str'
     return {'str': "std::result::Result<v1::model::Header<'_>, v1::error::ParseError>",
@@ -66,7 +67,16 @@ def annotate(prog, kind, paths):
             raise Unsupported('is_incomplete / is_complete not concrete on a path outcome')
 
 
+def is_ok_unknown(p):
+    if p.kind() != 'Ok':
+        return False
+    v = p.outcome[1].fields[0]
+    return isinstance(v, Struct) and v.get('addresses').variant == 'Unknown'
+
+
 def relevant(obname, p):
+    if obname in ('c05_prefix_incomplete_long', 'c04_trailer_independent_long'):
+        return is_ok_unknown(p)
     if obname in ('c05_prefix_incomplete', 'c04_trailer_independent', 'c04_header_is_line'):
         return p.kind() == 'Ok'
     if obname == 'c18_final':
@@ -616,7 +626,7 @@ def ob_c01_accept_iff(W, kind, idx, params):
     ctx, paths = wstate.w_summary(kind)
     p = paths[idx]
     orc = Oracle(ctx)
-    G = orc.wellformed(byte_entry=(kind == 'bytes'))
+    G = orc.wellformed(byte_entry=(v1sum.base(kind) == 'bytes'))
     real = realizable(ctx, p) + oracle_realizable(ctx, oracle_addr_fields(orc))
     roles = roles_for(W, ctx, orc)
     if p.kind() == 'Ok':
@@ -655,7 +665,7 @@ def ob_c01_decode(W, kind, idx, params):
                  Z(ip.get('source_port')) == orc.port_val(a3, b3),
                  Z(ip.get('destination_port')) == orc.port_val(a4, b4)]
     # decoding is only specified for well-formed lines (acceptance of anything else is c01_accept_iff's business)
-    G = orc.wellformed(byte_entry=(kind == 'bytes'))
+    G = orc.wellformed(byte_entry=(v1sum.base(kind) == 'bytes'))
     neg = z3.And(G, z3.Not(z3.And(good)))
 
     def mk(m):
@@ -682,6 +692,8 @@ SPECS['C05'] = {'kinds': ['str', 'bytes'], 'lmax': {'quick': 64, 'thorough': 112
                 'obligations': [('c05_prefix_incomplete', ['str', 'bytes']), ('c05_flags_consistent', ['str', 'bytes'])]}
 SPECS['C04'] = {'kinds': ['str', 'bytes'], 'lmax': {'quick': 64, 'thorough': 112},
                 'obligations': [('c04_trailer_independent', ['str', 'bytes']), ('c04_header_is_line', ['str', 'bytes'])]}
+SPECS['C05']['quick_extra'] = {'kinds': ['str_long', 'bytes_long'], 'lmax': 112, 'obligations': [('c05_prefix_incomplete_long', ['str_long', 'bytes_long'])]}
+SPECS['C04']['quick_extra'] = {'kinds': ['str_long', 'bytes_long'], 'lmax': 112, 'obligations': [('c04_trailer_independent_long', ['str_long', 'bytes_long'])]}
 SPECS['C16'] = {'kinds': ['str', 'bytes'], 'lmax': {'quick': 112, 'thorough': 128}, 'modular': 'c16_modular',
                 'obligations': [], 'thorough_extra': {'kinds': V1_4, 'lmax': 40, 'obligations': [('c16_entries_agree', ['str'])]}}
 
@@ -748,6 +760,16 @@ def ob_c05_prefix_incomplete(W, kind, idx, params):
     return decide(ctx, list(ctx2.axioms) + p.pc + pre, none_inc, 'c05_prefix_incomplete:%s:%s' % (kind, p.label()),
                   lambda m: cex_pair(ctx, ctx2, kind, kind, m, 'second_not_incomplete', 'a proper prefix of an accepted header is not reported incomplete'),
                   realize=realizable(ctx, p), roles=roles_for(W, ctx, orc), oracle_defs=orc.defs)
+
+
+def ob_c05_prefix_incomplete_long(W, kind, idx, params):
+    """the same obligation on the `*_long` summaries (LMAX = 112) for the accepted UNKNOWN lines only: the only
+    lines that can be longer than 104 bytes, so that every cut of a 105..107-byte header is covered in the quick tier"""
+    return ob_c05_prefix_incomplete(W, kind, idx, params)
+
+
+def ob_c04_trailer_independent_long(W, kind, idx, params):
+    return ob_c04_trailer_independent(W, kind, idx, params)
 
 
 def ob_c05_flags_consistent(W, kind, idx, params):
@@ -1016,6 +1038,8 @@ SPECS['C03']['thorough_extra'] = {'kinds': ['fromstr_addresses', 'fromstr_header
                                   'obligations': [('c03_nopanic', ['fromstr_addresses', 'fromstr_header'])]}
 SPECS['C03']['modular'] = 'c03_glue_nopanic'
 ENTRY_OF['str_views'] = 'v1_views'
+ENTRY_OF['str_long'] = 'v1_str'
+ENTRY_OF['bytes_long'] = 'v1_bytes'
 
 
 def ob_c15_views(W, kind, idx, params):
@@ -1071,7 +1095,7 @@ def c12_classes(orc, kind):
     g = orc
     c = g.ctx
     term = g.terminated()                      # CRLF-terminated, <= 107 bytes
-    utf = c.valid_utf8_prefix(g.c + 2) if kind == 'bytes' else z3.BoolVal(True)
+    utf = c.valid_utf8_prefix(g.c + 2) if v1sum.base(kind) == 'bytes' else z3.BoolVal(True)
     out = []
     good_rest = []
     for fam, kw in ((4, b'TCP4'), (6, b'TCP6')):
